@@ -316,6 +316,9 @@ func runC08(r *Rng, n int, replay string) {
 		p, _ := sh.pickPath(r)
 		q, _ := sh.pickPath(r)
 		arg := Op{P: p, Q: q, Perm: pickPerm(r), Data: smallData(r), T: int64(r.Range(1, 999)), Flag: r.Intn(64) &^ fRDWR}
+		if r.Intn(4) == 0 {
+			arg.Perm |= []uint32{1 << 20, 1 << 22, 1 << 23}[r.Intn(3)] // sticky, setgid, setuid: a fallback must carry them like the native method
+		}
 		if arg.Flag == 0 {
 			arg.Flag = fWRONLY | fCREATE
 		}
